@@ -36,7 +36,7 @@ XML_WS = " \t\r\n"
 def plan(tier, seed):
     if tier == "quick":
         return [{"strings": 40000, "docs": 4000}]
-    return [{"strings": 60000, "docs": 6000, "salt": i} for i in range(16)]
+    return [{"strings": 400000, "docs": 60000, "salt": i} for i in range(32)]
 
 
 def normalize_space(s):
